@@ -60,7 +60,14 @@ func goEnv() []string {
 	// The repository pins go 1.23.7; the matching toolchain is in the module
 	// cache and is selected automatically (GOTOOLCHAIN must stay "auto" and the
 	// checksum database setting must stay at its default for that switch).
-	env = append(env, "GOFLAGS=-mod=mod", "GOPROXY=off", "GOWORK=off")
+	flags := "GOFLAGS=-mod=mod"
+	if os.Getenv("NUTCHECK_TRIMPATH") != "" {
+		// variants of the tree analysed in scratch directories (thorough tier, development sweeps): without -trimpath
+		// the build cache keys every package by its directory, so each variant recompiles the whole module and
+		// leaves ~6 MB behind (a thousand variants: 6 GB and most of the run time)
+		flags += " -trimpath"
+	}
+	env = append(env, flags, "GOPROXY=off", "GOWORK=off")
 	return env
 }
 
